@@ -3,7 +3,7 @@ necessary condition of the property it is listed under in props.py).
 Shape-recognition is open-world: unrecognised code is UNDECIDED."""
 import ast
 
-from .core import (AnalysisError, dotted, norm, walk_local, const_int,
+from .core import (ftext, AnalysisError, dotted, norm, walk_local, const_int,
                    stmts_of, calls_in, call_name, kwarg, enclosing_stmt_map)
 from .dataflow import local_defs, names_in, closure_names, holds
 from .intexpr import canon, canon_src, poly, pstr, NotInt
@@ -21,7 +21,7 @@ def _canon(node, subst=None):
 # ---------------------------------------------------------------------
 def shard_close_sequence(repo, col):
     rule = "E-ORDER.shard-assembly"
-    fn = repo.func("sharded_file_accessor", "Shard.close")
+    fn = repo.func("sharded_file_accessor", "Shard.close", inline=True)
     loops = [s for s in stmts_of(fn.node) if isinstance(s, ast.For)
              and "sorted_mini_dict" in norm(s.iter)]
     if len(loops) < 2:
@@ -175,7 +175,7 @@ def scaling_composition(repo, col):
             "header fields of a loaded image; the array proxy keeps them)"
             % pre, undecided=not ok and not from_header)
     # default input_min
-    txt = norm(fn.node)
+    txt = ftext(fn)
     ok = "if input_min is None: input_min = 0" in txt.replace("\n", " ")
     col.add(rule, fn, "input_min defaults to 0", ok, "" if ok else
             "omitted --input-min no longer means 0", undecided=not ok)
@@ -228,7 +228,7 @@ def vtk_grammar(repo, col):
             col.add(rule, fn, "polygon vertex count prefix %d" % k, k == 3,
                     "" if k == 3 else "each POLYGONS line is prefixed with %d "
                     "although it lists 3 vertex indices" % k, node=c)
-    txt = norm(fn.node)
+    txt = ftext(fn)
     for p, why in (("np.insert(triangles, 0, 3, axis=1)", "each polygon line "
                     "does not start with its vertex count 3"),
                    ("{4 * triangles.shape[0]:d}", "POLYGONS size is not 4 "
@@ -244,7 +244,7 @@ def vtk_grammar(repo, col):
 def mesh_conversion(repo, col):
     rule = "E-SPEC.mesh-script"
     fn = repo.func("scripts.mesh_to_precomputed", "mesh_file_to_precomputed")
-    txt = norm(fn.node)
+    txt = ftext(fn)
     for p, why in (
             ("if 'mesh' not in info: info['mesh'] = mesh_dir",
              "the info 'mesh' key is not set when missing"),
@@ -277,7 +277,7 @@ def mesh_conversion(repo, col):
 def compact_json(repo, col):
     rule = "E-SPEC.transform.compact"
     fn = repo.func("transform", "matrix_as_compact_urlsafe_json")
-    txt = norm(fn.node)
+    txt = ftext(fn)
     for p, why in (("separators=('_', ':')", "URL-safe separators changed"),
                    ("int(x) if str(x).endswith('.0') and int(x) == x else x",
                     "integer-looking floats are not printed as the same "
@@ -334,7 +334,7 @@ def pyramid_factor_templates(repo, col):
     # the downscaled old chunk is what gets copied
     ld = repo.func("dyadic_pyramid",
                    "compute_dyadic_downscaling.load_and_downscale_old_chunk")
-    t = norm(ld.node)
+    t = ftext(ld)
     ok = "chunk = chunk_reader.read_chunk(old_key, old_chunk_coords)" in t and \
         "return downscaler.downscale(chunk, downscaling_factors)" in t
     col.add(rule, ld, "read old chunk, downscale by the level's factors", ok,
@@ -354,7 +354,7 @@ def new_dataset_defaults(repo, col):
             dv = d.value if isinstance(d, ast.Constant) else "?"
     col.add(rule, fn, "overwrite_info=False", dv is False, "" if dv is False
             else "writing an info file overwrites an existing one by default")
-    t = norm(fn.node)
+    t = ftext(fn)
     ok = "overwrite=overwrite_info" in t and "accessor.store_file('info'" in t
     col.add(rule, fn, "store_file('info', ..., overwrite=overwrite_info)", ok,
             "" if ok else "the info file is not stored with the caller's "
@@ -367,7 +367,7 @@ def new_dataset_defaults(repo, col):
 def sharded_http_urls(repo, col):
     rule = "E-SIB.dispatch.urls"
     gs = repo.func("sharded_http_accessor", "HttpShardedScale.get_shard")
-    t = norm(gs.node)
+    t = ftext(gs)
     ok = "HttpShard(f'{self.base_url}{self.key}/', self._session, shard_key, " \
         "self.shard_spec)" in t
     wrong = False
@@ -380,25 +380,25 @@ def sharded_http_urls(repo, col):
             "shard base URL is not <dataset URL><scale key>/",
             undecided=not ok and not wrong)
     fc = repo.func("sharded_http_accessor", "ShardedHttpAccessor.fetch_chunk")
-    t = norm(fc.node)
+    t = ftext(fc)
     ok = "HttpShardedScale(self.base_url, self._session, key, shard_spec, " \
         "shard_volume_spec)" in t and "if key not in self.shard_scale_dict" in t
     col.add(rule, fc, "one scale reader per key, built from this accessor's "
             "URL and session", ok, "" if ok else "scale reader construction "
             "changed", undecided=not ok)
     hs = repo.func("sharded_http_accessor", "HttpShard.__init__")
-    t = norm(hs.node)
+    t = ftext(hs)
     ok = "self.base_url = base_url.rstrip('/') + '/'" in t
     col.add(rule, hs, "shard base URL ends with exactly one slash", ok,
             "" if ok else "shard URL normalisation changed", undecided=not ok)
     rb = repo.func("sharded_http_accessor", "HttpShard.read_bytes")
-    t = norm(rb.node)
+    t = ftext(rb)
     for p in ("file_url += '.index'", "file_url += '.data'",
               "file_url += '.shard'", "if offset < self.header_byte_length"):
         col.add(rule, rb, p, p in t, "" if p in t else "legacy / modern file "
                 "selection changed", undecided=p not in t)
     sc = repo.func("sharded_base", "ShardCMC.__init__")
-    t = norm(sc.node).replace("\n", " ")
+    t = ftext(sc).replace("\n", " ")
     ok = "if self.file_exists(f'{self.shard_key_str}.shard'):" in t and \
         "self.file_exists(f'{self.shard_key_str}.index') and " \
         "self.file_exists(f'{self.shard_key_str}.data')" in t
@@ -410,7 +410,7 @@ def copy_info_handling(repo, col):
     rule = "E-ORDER.convert.info"
     fn = repo.func("scripts.convert_chunks", "convert_chunks")
     defs = local_defs(fn.node)
-    t = norm(fn.node).replace("\n", " ")
+    t = ftext(fn).replace("\n", " ")
     while "  " in t:
         t = t.replace("  ", " ")
     # the destination's layout (sharded or plain) is decided from its info:
